@@ -63,7 +63,14 @@ func (b *Bulker) run(ctx context.Context, ctrl ledgercontroller.Controller, sche
 					}
 					return
 				}
-				ret, logID, err := b.processElement(ctx, ctrl, schemaVersion, element)
+				var (
+					ret   any
+					logID uint64
+					err   = element.err
+				)
+				if err == nil {
+					ret, logID, err = b.processElement(ctx, ctrl, schemaVersion, element)
+				}
 				if err != nil {
 					hasError.Store(true)
 					observe.RecordError(ctx, err)
